@@ -14,6 +14,13 @@ CHECKS = {
  "C06": ("TLC trace validation of MonCore rules C06:* (exactly once, unregistered at entry, no blocking wait with a task pending, once per poll interval)", "4/C06"),
  "C07": ("TLC trace validation of MonCore rules C07:* (return iff quit or nothing registered, no poll without objects, no nesting, spin) incl. failing registrations", "4/C07"),
  "C15": ("all MonCore rules under the method x fault-plan matrix (EINTR at the k-th wait, ENOSYS/EPERM fall-backs from the 1st/k-th call)", "4/C15"),
+ "C08": ("TLC model checking of spec/IvEvent.tla (no lost wake-up, no over-delivery, liveness) + schedule enumeration of real threads under the baton scheduler, traces validated by TLC against MonCore rules C08:*", "4/C08"),
+ "C09": ("TLC model checking of spec/IvRaw.tla (eventfd / pipe modes) + schedule enumeration and bursts on the real code in eventfd2 / eventfd / pipe mode, traces validated against MonCore rules C09:*", "4/C09"),
+ "C10": ("TLC model checking of spec/IvSignal.tla composed with the MonSig monitor + simulated signal deliveries on the real code, traces validated by TLC against MonSig rules C10:*", "4/C10"),
+ "C11": ("TLC model checking of spec/IvWait.tla composed with MonSig + simulated child processes (pid reuse, strangers, exit-before-fork-returns) on the real code, traces validated against MonSig rules C11:*", "4/C11"),
+ "C12": ("TLC model checking of spec/IvWork.tla (exactly-once, max concurrency, no stranded work, liveness) + schedule enumeration / random schedules with 10 s time jumps on the real pool, traces validated against MonWork rules C12:*", "4/C12"),
+ "C13": ("TLC model checking of spec/IvWork.tla (release only when drained, hooks paired, liveness Released) + real pool shutdown / iv_thread exit scenarios, traces validated against MonWork rules C13:*", "4/C13"),
+ "C19": ("TLC model checking of spec/IvPopen.tla (three child policies, liveness Terminates) composed with MonSig + simulated children and virtual time on the real code, traces validated against MonSig rules C19:*", "4/C19"),
 }
 LEVEL = {"C15": "fault_enumeration"}
 m = {
@@ -24,7 +31,9 @@ m = {
            "baseline_off_cmd": "make -C /repo && make -C /repo/test check",
            "source_commits": [], "add_only": True},
  "engines": [{"name": "tlc-trace-validation", "path": "spec/TraceCore.tla", "serves_properties": sorted(CHECKS),
-              "kind_free_text": "TLA+ monitors (spec/MonCore.tla) evaluated by TLC on ndjson traces recorded from the real library under the virtual kernel"}],
+              "kind_free_text": "TLA+ monitors (spec/MonCore.tla, MonWork.tla, MonSig.tla via spec/TraceAll.tla) evaluated by TLC on ndjson traces recorded from the real library under the virtual kernel"},
+             {"name": "tlc-model-checking", "path": "spec/", "serves_properties": ["C08", "C09", "C10", "C11", "C12", "C13", "C19"],
+              "kind_free_text": "TLC exhaustive model checking of the implementation-shaped system models IvEvent, IvRaw, IvWork, IvSignal, IvWait, IvPopen"}],
  "checks": [], "not_applicable": [],
  "notes": "bin/check <id> --tier quick|thorough; see DESIGN.md",
 }
